@@ -133,6 +133,7 @@ func observe(e *h.Eng, dir string, cfg h.Cfg) (string, []int, []map[string]any, 
 		idx[i] = map[string]any{"f": -1, "b": 0, "o": 0, "s": 0}
 	}
 	var db *kv.DB
+	observedLive = []int{-1, -1}
 	open := h.Guard(h.CallTimeout, func() error {
 		var err error
 		db, err = kv.Open(cfg.Options(dir))
@@ -163,8 +164,15 @@ func observe(e *h.Eng, dir string, cfg h.Cfg) (string, []int, []map[string]any, 
 			idx[r-1] = map[string]any{"f": int(en.Pos.Fid), "b": int(en.Pos.BlockID), "o": int(en.Pos.Offset), "s": int(en.Pos.Size)}
 		}
 	}
+	// the sizes the load accounted: bytes of live records (all bytes minus the reclaimable ones) and the key count
+	if st := db.Stat(); st != nil {
+		observedLive = []int{int(st.DiskSize - st.ReclaimableSize), int(st.KeyNum)}
+	}
 	return open, vals, idx, db
 }
+
+// observedLive: {live bytes, keys} accounted by the database observe opened last
+var observedLive = []int{-1, -1}
 
 // hintCompare copies data and merge directory, opens the copy through the hint
 // (the adopting Open) and then once more (a plain scan of the same files).
@@ -202,11 +210,13 @@ func hintCompare(en *Env, e *h.Eng) {
 	}
 	ev := h.Ev{"ev": "hintcmp"}
 	oa, va, ia, db := observe(e, cdir, e.Cfg)
+	la := observedLive
 	h.SetIOHandler(nil)
 	defer func() {
 		for _, img := range imgs {
 			ev2 := h.Ev{"ev": "hintcmp"}
 			o1, v1, i1, d1 := observe(e, img, e.Cfg)
+			l1 := observedLive
 			c1 := "ok"
 			if d1 != nil {
 				c1 = h.Guard(h.CallTimeout, func() error { return d1.Close() })
@@ -215,6 +225,7 @@ func hintCompare(en *Env, e *h.Eng) {
 			if d2 != nil {
 				h.Guard(h.CallTimeout, func() error { return d2.Close() })
 			}
+			ev2["livea"], ev2["liveb"] = l1, observedLive
 			ev2["opena"], ev2["vala"], ev2["idxa"], ev2["closea"] = o1, v1, i1, c1
 			ev2["openb"], ev2["valb"], ev2["idxb"] = o2, v2, i2
 			e.T.Emit(ev2)
@@ -231,6 +242,7 @@ func hintCompare(en *Env, e *h.Eng) {
 	}
 	ev["opena"], ev["vala"], ev["idxa"], ev["closea"] = oa, va, ia, ca
 	ev["openb"], ev["valb"], ev["idxb"] = ob, vb, ib
+	ev["livea"], ev["liveb"] = la, observedLive
 	e.T.Emit(ev)
 }
 
